@@ -40,28 +40,28 @@
      worded holds for finite data only, and that is why the law is asked for that `a` and not `∀ a`.
   4. DataItem:  `dataitem_getters`, `dataitem_same_numbers`.
 -/
-import TaRs.Lemmas.SimpleMovingAverage
-import TaRs.Lemmas.ExponentialMovingAverage
-import TaRs.Lemmas.WeightedMovingAverage
-import TaRs.Lemmas.StandardDeviation
-import TaRs.Lemmas.MeanAbsoluteDeviation
-import TaRs.Lemmas.RateOfChange
-import TaRs.Lemmas.EfficiencyRatio
-import TaRs.Lemmas.Minimum
-import TaRs.Lemmas.Maximum
-import TaRs.Lemmas.RelativeStrengthIndex
-import TaRs.Lemmas.MovingAverageConvergenceDivergence
-import TaRs.Lemmas.PercentagePriceOscillator
-import TaRs.Lemmas.BollingerBands
+import TaRs.Lemmas.Bar.SimpleMovingAverage
+import TaRs.Lemmas.Bar.ExponentialMovingAverage
+import TaRs.Lemmas.Bar.WeightedMovingAverage
+import TaRs.Lemmas.Bar.StandardDeviation
+import TaRs.Lemmas.Bar.MeanAbsoluteDeviation
+import TaRs.Lemmas.Bar.RateOfChange
+import TaRs.Lemmas.Bar.EfficiencyRatio
+import TaRs.Lemmas.Bar.Minimum
+import TaRs.Lemmas.Bar.Maximum
+import TaRs.Lemmas.Bar.RelativeStrengthIndex
+import TaRs.Lemmas.Bar.MovingAverageConvergenceDivergence
+import TaRs.Lemmas.Bar.PercentagePriceOscillator
+import TaRs.Lemmas.Bar.BollingerBands
 import TaRs.Lemmas.TrueRange
-import TaRs.Lemmas.AverageTrueRange
-import TaRs.Lemmas.Core.FastStochastic
-import TaRs.Lemmas.Core.SlowStochastic
-import TaRs.Lemmas.KeltnerChannel
-import TaRs.Lemmas.Core.ChandelierExit
-import TaRs.Lemmas.Core.CommodityChannelIndex
-import TaRs.Lemmas.Core.MoneyFlowIndex
-import TaRs.Lemmas.Core.OnBalanceVolume
+import TaRs.Gen.AverageTrueRange
+import TaRs.Gen.FastStochastic
+import TaRs.Gen.SlowStochastic
+import TaRs.Gen.KeltnerChannel
+import TaRs.Gen.ChandelierExit
+import TaRs.Gen.CommodityChannelIndex
+import TaRs.Gen.MoneyFlowIndex
+import TaRs.Gen.OnBalanceVolume
 import TaRs.Lemmas.DataItem
 
 namespace TaRs.Props.C10
@@ -289,8 +289,10 @@ theorem atr_one_price_of_laws (s : AverageTrueRange F) (x v : F)
       Scalar.max (Scalar.max (Scalar.lit 0 0) (Scalar.abs (Scalar.sub x pc)))
         (Scalar.abs (Scalar.sub x pc)) = Scalar.abs (Scalar.sub x pc)) :
     s.nextBar (onePrice x v) = s.next x := by
-  rw [AverageTrueRange.nextBar_eq, AverageTrueRange.next_eq,
-    tr_out_one_price s.true_range x v hsub hmax]; rfl
+  -- the two paths differ only in the TrueRange call; the EMA stays opaque
+  unfold AverageTrueRange.nextBar AverageTrueRange.next
+  try simp only [gen_helper]
+  rw [truerange_one_price_of_laws s.true_range x v hsub hmax]
 
 /-! ### FastStochastic, SlowStochastic: the guard is `highest == lowest` vs `min == max` -/
 
@@ -325,9 +327,15 @@ theorem keltnerchannel_one_price_of_laws (s : KeltnerChannel F) (x v : F)
       Scalar.max (Scalar.max (Scalar.lit 0 0) (Scalar.abs (Scalar.sub x pc)))
         (Scalar.abs (Scalar.sub x pc)) = Scalar.abs (Scalar.sub x pc)) :
     s.nextBar (onePrice x v) = s.next x := by
-  have ht : KeltnerChannel.typicalPrice (onePrice x v) = x := htp
-  rw [KeltnerChannel.nextBar_eq, KeltnerChannel.next_eq,
-    tr_out_one_price s.atr.true_range x v hsub hmax, ht]; rfl
+  -- the bar path runs the EMA (on the typical price) before the ATR, the scalar path after it:
+  -- each component only sees its own input, so the order is not observable; both stay opaque
+  have ht : Scalar.div (Scalar.add (Scalar.add (onePrice x v).close (onePrice x v).high)
+      (onePrice x v).low) (Scalar.lit 3 0) = x := htp
+  unfold KeltnerChannel.nextBar KeltnerChannel.next
+  try simp only [gen_helper]
+  rw [ht, atr_one_price_of_laws s.atr x v hsub hmax]
+  cases h1 : ExponentialMovingAverage.next s.ema x <;>
+    cases h2 : AverageTrueRange.next s.atr x <;> simp [h1, h2]
 
 /-- the one-price theorems extend to every bar whose high, low and close are `x` (open and volume
     arbitrary) through field independence; stated once, for TrueRange -/
